@@ -27,6 +27,18 @@ typedef struct {
 	unsigned int bits;
 } VariableLengthTable;
 
+#ifdef LHASA_VERIF
+// Verification hooks (off by default): report table indices to an
+// external monitor before they are used.
+extern void lhasa_verif_index(const char *table, long idx,
+                              unsigned long table_len);
+extern void lhasa_verif_row(const void *ptr, const void *row_base,
+                            unsigned long row_len, const char *where);
+#define LHASA_VERIF_INDEX(table, idx) \
+	lhasa_verif_index(#table, (long) (idx), \
+	                  sizeof(table) / sizeof(*(table)))
+#endif
+
 // Read a variable length code, given the header bits already read.
 // Returns the decoded value, or -1 for error.
 
